@@ -192,7 +192,21 @@ fn build<'a>(case: &Case, named_is_probe: bool) -> W<'a> {
         s.token.approve(&counterparty, &named, &500, &soon);
         advance_ledgers(&env, 6);
     } else if case.grantor_allowance_revoked != 0 {
-        match case.grantor_allowance_revoked % 6 {
+        match case.grantor_allowance_revoked % 8 {
+            6 | 7 => {
+                // an "unlimited" approval (expiration far beyond any entry lifetime; a tree may refuse it), then revoked
+                // or replaced by a small one that is used up; then enough ledgers pass for short-lived entries to lapse
+                let _ = s.token.try_approve(&counterparty, &named, &500, &u32::MAX);
+                advance_ledgers(&env, 3);
+                let now = env.ledger().sequence();
+                if case.grantor_allowance_revoked % 8 == 6 {
+                    let _ = s.token.try_approve(&counterparty, &named, &0, &now);
+                } else {
+                    s.token.approve(&counterparty, &named, &2, &(now + 5));
+                    s.token.transfer_from(&named, &counterparty, &named, &2);
+                }
+                advance_ledgers(&env, 40);
+            }
             k @ 1..=3 => {
                 s.token.approve(&counterparty, &named, &500, &exp);
                 advance_ledgers(&env, 10);
@@ -415,7 +429,7 @@ impl Property for C07 {
                 windows_open: amount % 5 == 0,
                 negative_amount: amount % 7 == 0,
                 sweep: None,
-                grantor_allowance_revoked: if without_grantor_allowance && amount % 2 == 1 { 1 + amount / 2 % 6 } else { 0 },
+                grantor_allowance_revoked: if without_grantor_allowance && amount % 2 == 1 { 1 + amount / 2 % 7 } else { 0 },
             })
             .boxed();
         match crate::sweep::strategy(crate::sweep::Rule::Spend) {
@@ -447,7 +461,7 @@ impl Property for C07 {
                             for amount in [3u8, 250] {
                                 v.push(Case { ep, principal: p, with_allowance_for_counterparty: false, amount, without_grantor_allowance: true, named_is_token_owner: owner, grantor_allowance_expired: expired , windows_open: false, negative_amount: false, sweep: None, grantor_allowance_revoked: 0 });
                                 if !expired {
-                                    for r in 1..7u8 {
+                                    for r in 1..8u8 {
                                         v.push(Case { ep, principal: p, with_allowance_for_counterparty: false, amount, without_grantor_allowance: true, named_is_token_owner: owner, grantor_allowance_expired: false, windows_open: false, negative_amount: false, sweep: None, grantor_allowance_revoked: r });
                                     }
                                 }
@@ -512,7 +526,7 @@ impl Property for C07 {
                     cx.count("must_fail");
                     cx.label("delegated_without_allowance");
                 if case.grantor_allowance_revoked != 0 && !case.grantor_allowance_expired {
-                    cx.label(if case.grantor_allowance_revoked % 6 >= 1 && case.grantor_allowance_revoked % 6 <= 3 { "allowance_revoked_by_approving_zero" } else { "allowance_exhausted_by_its_spender" });
+                    cx.label(match case.grantor_allowance_revoked % 8 { 1..=3 => "allowance_revoked_by_approving_zero", 6 | 7 => "unlimited_allowance_revoked_or_replaced_then_ledgers_pass", _ => "allowance_exhausted_by_its_spender" });
                 }
                     let snap0 = snapshot(env);
                     ensure_p!(!call_via_probe(&w, &inv), "{:?}: a delegated spend by a contract succeeded although the holder has no usable allowance (never granted, expired, or revoked)", ep);
@@ -553,7 +567,7 @@ impl Property for C07 {
                 // delegated spend must fail whoever signs (the call cannot be recorded: it fails).
                 cx.label("delegated_without_allowance");
                 if case.grantor_allowance_revoked != 0 && !case.grantor_allowance_expired {
-                    cx.label(if case.grantor_allowance_revoked % 6 >= 1 && case.grantor_allowance_revoked % 6 <= 3 { "allowance_revoked_by_approving_zero" } else { "allowance_exhausted_by_its_spender" });
+                    cx.label(match case.grantor_allowance_revoked % 8 { 1..=3 => "allowance_revoked_by_approving_zero", 6 | 7 => "unlimited_allowance_revoked_or_replaced_then_ledgers_pass", _ => "allowance_exhausted_by_its_spender" });
                 }
                 let w = build(case, false);
                 let env = &w.s.env;
